@@ -194,6 +194,10 @@ class Hooks(BaseHooks):
                     viol.append(V("real_eigenvalue", i, f"Hermitian input but eigenvalue {lam_out} has a non-zero imaginary part"))
             else:
                 self.cnt["complex_path"] += 1
+            # whatever path is taken, the eigenvalue estimate is a Rayleigh quotient of a unit
+            # vector (of A or of its adjoint), hence bounded by the spectral norm
+            if math.isfinite(float(est)) and float(est) > nA * (1 + 1e-8) + 1e-300:
+                viol.append(V("bounded", i, f"complex-adjoint variant returned |lambda| = {float(est)!r} > ||A||_2 = {nA!r}"))
         if not finite(qalg.comps(v)) or (est is not None and not math.isfinite(float(est))):
             viol.append(V("nan", i, "non-finite vector or eigenvalue"))
             return
